@@ -2,6 +2,7 @@
    drained over a canonical in-memory trie yields exactly [entries], never runs
    out of fuel and never panics; [entries] holds exactly the key-value pairs of
    the trie. *)
+From Coq Require Import Sorted.
 From GV Require Import Lib.Tactics Trie.Hex Trie.HexProofs Trie.Node Trie.Ops Trie.OpsProofs Trie.Canon Trie.Iter.
 Local Open Scope N_scope.
 
@@ -192,7 +193,7 @@ Proof.
                      (m + size_of cs todo)%nat (unhex (ents_of cs p todo) ++ l) Hpos Hbkc).
       rewrite firstn_app_exact in Hc. cbn [length] in Hc. specialize (Hc IH).
       cbn [peek_push next_child i_node i_index i_pathlen]. rewrite Hidx, Hfc, Hfn.
-      cbn [i_node i_index i_pathlen]. rewrite (next_prev_ci j Hj), Nat2Z.id.
+      cbn [i_node i_index i_pathlen]. rewrite (next_prev_ci j Hj).
       replace (Z.to_N (Z.of_nat j)) with (N.of_nat j) by lia.
       unfold arrive in Hc. rewrite unhex_app, <- app_assoc.
       replace (m + (nsize c + size_of cs todo))%nat with (m + size_of cs todo + nsize c)%nat by lia.
@@ -297,6 +298,11 @@ Qed.
 
 (* ---- entries are exactly the lookups ---- *)
 
+Lemma in_visit_order j : (j < 17)%nat -> In j visit_order.
+Proof.
+  intros H. unfold visit_order. do 17 (destruct j as [|j]; [simpl; intuition congruence|]). lia.
+Qed.
+
 Lemma entries_lk n : forall p q v, ipos n p ->
   (In (q, v) (entries n p) <-> exists k, q = p ++ k /\ lk n k = Some v).
 Proof.
@@ -338,8 +344,197 @@ Proof.
       assert (Hne : c <> NEmpty) by (intros ->; rewrite lk_empty in Hl; discriminate).
       assert (Hx : (N.to_nat x < 17)%nat) by (rewrite <- HL; apply nth_error_Some; congruence).
       exists (N.to_nat x). split.
-      * unfold visit_order. do 17 (destruct (N.to_nat x) as [|?]; [simpl; tauto|]). lia.
+      * apply in_visit_order. exact Hx.
       * rewrite Ec. apply (IH c (nth_error_In _ _ Ec) _ _ v (Hchild _ _ Ec Hne)).
         exists k. rewrite N2Nat.id, <- app_assoc. auto.
   - destruct Hpos as [(? & E & _)|[Hc _]]; [discriminate|inversion Hc].
+Qed.
+
+(* ---- ascending order ---- *)
+
+(* order of traversal inside a full node: the terminator (value slot) first *)
+Definition rank (x : N) : N := if N.eqb x 16 then 0 else x + 1.
+
+(* lexicographic order on hex paths by [rank] *)
+Fixpoint hltb (a b : list N) : bool :=
+  match a, b with
+  | [], _ :: _ => true
+  | x :: a', y :: b' =>
+      if N.ltb (rank x) (rank y) then true
+      else if N.eqb (rank x) (rank y) then hltb a' b' else false
+  | _, [] => false
+  end.
+
+(* bytes.Compare(a, b) < 0 *)
+Fixpoint bltb (a b : list N) : bool :=
+  match a, b with
+  | [], _ :: _ => true
+  | x :: a', y :: b' =>
+      if N.ltb x y then true else if N.eqb x y then bltb a' b' else false
+  | _, [] => false
+  end.
+
+Lemma hltb_prefix p a b : hltb (p ++ a) (p ++ b) = hltb a b.
+Proof. induction p as [|z p IH]; [reflexivity|]. simpl. rewrite N.ltb_irrefl, N.eqb_refl. exact IH. Qed.
+
+Lemma rank_nib z : z < 16 -> rank z = z + 1.
+Proof. intros H. unfold rank. destruct (N.eqb_spec z 16); [lia|reflexivity]. Qed.
+
+Lemma hltb_hex k1 : forall k2, bytes_key k1 -> bytes_key k2 ->
+  hltb (keybytes_to_hex k1) (keybytes_to_hex k2) = bltb k1 k2.
+Proof.
+  unfold bytes_key, keybytes_to_hex.
+  induction k1 as [|x a IH]; intros [|y b] H1 H2; cbn [nibbles_of app hltb bltb forallb] in *.
+  - reflexivity.
+  - apply andb_true_iff in H2 as [Hy _]. unfold byteb in Hy.
+    rewrite (rank_nib (y / 16)) by lia. change (rank 16) with 0.
+    destruct (N.ltb_spec 0 (y / 16 + 1)); [reflexivity|lia].
+  - apply andb_true_iff in H1 as [Hx _]. unfold byteb in Hx.
+    rewrite (rank_nib (x / 16)) by lia. change (rank 16) with 0.
+    destruct (N.ltb_spec (x / 16 + 1) 0); [lia|]. destruct (N.eqb_spec (x / 16 + 1) 0); [lia|reflexivity].
+  - apply andb_true_iff in H1 as [Hx H1]. apply andb_true_iff in H2 as [Hy H2].
+    unfold byteb in Hx, Hy. rewrite <- (IH b H1 H2).
+    rewrite (rank_nib (x / 16)), (rank_nib (y / 16)), (rank_nib (x mod 16)), (rank_nib (y mod 16)) by lia.
+    destruct (N.ltb_spec x y); destruct (N.eqb_spec x y);
+      destruct (N.ltb_spec (x / 16 + 1) (y / 16 + 1)); destruct (N.eqb_spec (x / 16 + 1) (y / 16 + 1));
+      destruct (N.ltb_spec (x mod 16 + 1) (y mod 16 + 1)); destruct (N.eqb_spec (x mod 16 + 1) (y mod 16 + 1));
+      try reflexivity; lia.
+Qed.
+
+Lemma sorted_app {A} (R : A -> A -> Prop) l1 l2 :
+  StronglySorted R l1 -> StronglySorted R l2 ->
+  (forall a b, In a l1 -> In b l2 -> R a b) -> StronglySorted R (l1 ++ l2).
+Proof.
+  induction 1 as [|x l1 Hs IH Hx]; intros H2 Hc; [exact H2|]. simpl. constructor.
+  - apply IH; [exact H2|]. intros a b Ha Hb. apply Hc; [right; exact Ha|exact Hb].
+  - apply Forall_app. split; [exact Hx|]. apply Forall_forall. intros b Hb. apply Hc; [left; reflexivity|exact Hb].
+Qed.
+
+Definition hlt_ent (e1 e2 : list N * list N) : Prop := hltb (fst e1) (fst e2) = true.
+
+Lemma rank_order done j todo : visit_order = done ++ j :: todo ->
+  Forall (fun j' => rank (N.of_nat j) < rank (N.of_nat j')) todo.
+Proof.
+  intros H. unfold visit_order in H.
+  do 17 (destruct done as [|? done];
+         [simpl in H; injection H as <- <-; repeat constructor
+         |simpl in H; try discriminate; injection H as <- H]).
+  destruct done; discriminate.
+Qed.
+
+Lemma entries_sorted n : forall p, ipos n p -> StronglySorted hlt_ent (entries n p).
+Proof.
+  induction n as [|v0|k0 c IH|cs IH|h] using node_ind'; intros p Hpos.
+  - constructor.
+  - simpl. repeat constructor.
+  - destruct Hpos as [(? & E & _)|[Hc Hp]]; [discriminate|]. rewrite entries_short. apply IH.
+    destruct (can_short_inv _ _ Hc) as [[Hk [v1 ->]]|(Hk & Hne & cs & -> & Hcf)].
+    + left. exists v1. split; [reflexivity|]. apply valid_key_nib_app; assumption.
+    + right. split; [assumption|]. apply nibbles_app. auto.
+  - destruct Hpos as [(? & E & _)|[Hc Hp]]; [discriminate|].
+    destruct (can_full_inv _ Hc) as (HL & Hch & H16 & _).
+    assert (Hchild : forall j c, nth_error cs j = Some c -> c <> NEmpty -> ipos c (p ++ [N.of_nat j])).
+    { intros j c Ec Hne. assert (Hj : (j < 17)%nat) by (rewrite <- HL; apply nth_error_Some; congruence).
+      destruct (Nat.eq_dec j 16) as [->|Nj].
+      - destruct (H16 _ Ec) as [->|[v1 ->]]; [congruence|]. left. exists v1. split; [reflexivity|].
+        apply valid_key_app. exact Hp.
+      - right. destruct (Hch _ _ Ec ltac:(lia)) as [->|Hcc]; [congruence|]. split; [exact Hcc|].
+        apply nibbles_app. split; [exact Hp|]. constructor; [lia|constructor]. }
+    rewrite entries_full. rewrite Forall_forall in IH.
+    assert (G : forall todo done, visit_order = done ++ todo ->
+              StronglySorted hlt_ent (ents_of cs p todo) /\
+              forall e, In e (ents_of cs p todo) -> exists j s, In j todo /\ fst e = p ++ N.of_nat j :: s).
+    { induction todo as [|j todo IHt]; intros done Hs.
+      - split; [constructor|intros e []].
+      - assert (Hs' : visit_order = (done ++ [j]) ++ todo) by (rewrite <- app_assoc; exact Hs).
+        destruct (IHt _ Hs') as [S1 P1]. rewrite ents_of_cons.
+        assert (Pj : forall e, In e (match nth_error cs j with
+                       | Some c => entries c (p ++ [N.of_nat j]) | None => [] end) ->
+                     exists s, fst e = p ++ N.of_nat j :: s).
+        { intros [q v] Hin. destruct (nth_error cs j) as [c|] eqn:Ec; [|destruct Hin].
+          destruct (is_empty c) eqn:Ee; [destruct c; try discriminate; destruct Hin|].
+          assert (Hne : c <> NEmpty) by (intros ->; discriminate).
+          apply (entries_lk c _ q v (Hchild _ _ Ec Hne)) in Hin as (k & -> & _).
+          exists k. simpl. rewrite <- app_assoc. reflexivity. }
+        split.
+        + apply sorted_app; [|exact S1|].
+          * destruct (nth_error cs j) as [c|] eqn:Ec; [|constructor].
+            destruct (is_empty c) eqn:Ee; [destruct c; try discriminate; constructor|].
+            apply (IH c (nth_error_In _ _ Ec)). apply (Hchild _ _ Ec). intros ->; discriminate.
+          * intros a b Ha Hb. destruct (Pj _ Ha) as [sa Ea]. destruct (P1 _ Hb) as (j' & sb & Hj' & Eb).
+            unfold hlt_ent. rewrite Ea, Eb, hltb_prefix. simpl.
+            pose proof (rank_order _ _ _ Hs) as Hr. rewrite Forall_forall in Hr. specialize (Hr _ Hj').
+            destruct (N.ltb_spec (rank (N.of_nat j)) (rank (N.of_nat j'))); [reflexivity|lia].
+        + intros e Hin. apply in_app_or in Hin as [Hin|Hin].
+          * destruct (Pj _ Hin) as [s Es]. exists j, s. split; [left; reflexivity|exact Es].
+          * destruct (P1 _ Hin) as (j' & s & Hj' & Es). exists j', s. split; [right; exact Hj'|exact Es]. }
+    apply (G visit_order [] eq_refl).
+  - constructor.
+Qed.
+
+Lemma sorted_map {A B} (R : A -> A -> Prop) (R' : B -> B -> Prop) (f : A -> B) l :
+  StronglySorted R l ->
+  (forall a b, In a l -> In b l -> R a b -> R' (f a) (f b)) ->
+  StronglySorted R' (map f l).
+Proof.
+  induction 1 as [|x l Hs IH Hx]; intros Hf; [constructor|]. simpl. constructor.
+  - apply IH. intros a b Ha Hb. apply Hf; right; assumption.
+  - rewrite Forall_forall in *. intros y Hy. apply in_map_iff in Hy as (b & <- & Hb).
+    apply Hf; [left; reflexivity|right; exact Hb|apply Hx; exact Hb].
+Qed.
+
+Lemma entries_lk_root t q v : canon t -> (In (q, v) (entries t []) <-> lk t q = Some v).
+Proof.
+  intros [->|Hc].
+  - rewrite lk_empty. simpl. split; [tauto|discriminate].
+  - rewrite (entries_lk t [] q v (or_intror (conj Hc (Forall_nil _)))). simpl. split.
+    + intros (k & -> & H). exact H.
+    + intros H. eauto.
+Qed.
+
+Definition blt_ent (e1 e2 : list N * list N) : Prop := bltb (fst e1) (fst e2) = true.
+
+(* (g, iterator) draining NewIterator(t.NodeIterator(nil)) over the trie built by
+   any history of updates never fails and yields exactly the final key-value
+   map, in strictly ascending byte order of the keys (a key that is a prefix of
+   another comes first) *)
+Theorem iter_sorted_complete resolve ops t ev :
+  bytes_ops ops -> update_seq resolve NEmpty ops = TOk (t, ev) ->
+  exists L, trie_iterate t = TOk L /\
+    (forall k v, In (k, v) L <-> bytes_key k /\ final_map ops k = Some v) /\
+    StronglySorted blt_ent L.
+Proof.
+  intros HB Hu.
+  destruct (update_seq_spec resolve ops HB NEmpty (fun _ => None) (or_introl eq_refl) lk_empty)
+    as (t' & ev' & E & C & Lk).
+  rewrite E in Hu. inversion Hu; subst t' ev'. clear Hu.
+  assert (K : forall q v, lk t q = Some v ->
+            exists kb, bytes_key kb /\ q = keybytes_to_hex kb /\ final_map ops kb = Some v).
+  { intros q v Hl. rewrite Lk in Hl.
+    destruct (in_dec (list_eq_dec N.eq_dec) q (map fst (hexops ops))) as [Hin|Hnin].
+    - apply in_map_iff in Hin as ([hk' v'] & Eq & Hin). simpl in Eq. subst hk'.
+      apply in_map_iff in Hin as ([kb v''] & Eq & Hin). simpl in Eq. inversion Eq; subst.
+      assert (Hk : bytes_key kb).
+      { unfold bytes_ops in HB. rewrite Forall_forall in HB. apply (HB _ Hin). }
+      exists kb. split; [exact Hk|]. split; [reflexivity|]. unfold final_map.
+      rewrite <- (apply_ops_hex ops HB (fun _ => None) (fun _ => None) kb Hk eq_refl). exact Hl.
+    - rewrite apply_ops_notin in Hl by exact Hnin. discriminate. }
+  assert (Hbk : bk t []).
+  { intros q v Hin. apply (entries_lk_root t q v C) in Hin. destruct (K _ _ Hin) as (kb & Hk & -> & _).
+    exists kb. apply keybytes_hex. exact Hk. }
+  exists (unhex (entries t [])). split; [apply iterate_entries; assumption|]. split.
+  - intros k v. unfold unhex. rewrite in_map_iff. split.
+    + intros ([q v'] & Eq & Hin). simpl in Eq. inversion Eq; subst v'. clear Eq.
+      apply (entries_lk_root t q v C) in Hin. destruct (K _ _ Hin) as (kb & Hk & -> & Hf).
+      rewrite (keybytes_hex _ Hk) in H0. subst kb. auto.
+    + intros [Hk Hf]. exists (keybytes_to_hex k, v). simpl. rewrite (keybytes_hex _ Hk).
+      split; [reflexivity|]. apply (entries_lk_root t _ v C). rewrite Lk.
+      rewrite (apply_ops_hex ops HB (fun _ => None) (fun _ => None) k Hk eq_refl). exact Hf.
+  - assert (Hs : StronglySorted hlt_ent (entries t [])).
+    { destruct C as [->|Hc]; [constructor|]. apply entries_sorted. right. split; [exact Hc|constructor]. }
+    unfold unhex. apply (sorted_map hlt_ent blt_ent _ _ Hs).
+    intros [qa va] [qb vb] Ha Hb Hab. unfold hlt_ent, blt_ent in *. simpl in *.
+    apply (entries_lk_root t qa va C) in Ha. apply (entries_lk_root t qb vb C) in Hb.
+    destruct (K _ _ Ha) as (ka & Hka & -> & _). destruct (K _ _ Hb) as (kb & Hkb & -> & _).
+    rewrite (keybytes_hex _ Hka), (keybytes_hex _ Hkb). rewrite <- hltb_hex by assumption. exact Hab.
 Qed.
